@@ -48,7 +48,32 @@ def _sig(comp):
     return frozenset(names)
 
 
+def collapse_transparent(ctx, g):
+    """call graph with transparent helpers (private, non-recursive, named by no rule) merged into their callers"""
+    N0 = None
+    for f in list(g):
+        b = ctx.P.body(f)
+        if b is not None and "body" in b:
+            N0 = Norm(b)
+            break
+    if N0 is None:
+        return g
+    g = {f: set(cs) for f, cs in g.items()}
+    for _round in range(4):
+        helpers = [f for f in g if N0.transparent_fn(f) is not None]
+        if not helpers:
+            break
+        for h in helpers:
+            outs = g.pop(h, set()) - {h}
+            for f, cs in g.items():
+                if h in cs:
+                    cs.discard(h)
+                    cs |= outs
+    return g
+
+
 def check_sccs(ctx, rid, g, reach, crates, bindings):
+    g = collapse_transparent(ctx, g)
     comps = k10.sccs(g)
     if reach is not None:
         comps = [c for c in comps if any(m in reach for m in c)]
@@ -101,12 +126,11 @@ def auto_type_expression(ctx, comp):
     for m in comp:
         fn = ctx.P.body(m)
         N = Norm(fn)
-        for n, cal in _calls_into(ctx, fn, comp):
+        for n, cal, ats, _direct in _calls_into(ctx, fn, comp, N):
             target = [x for x in comp if k10._same_fn(cal, x)]
             if not target:
                 return "unresolved callee " + cshort(cal)
-            args = ([n["recv"]] + n["args"]) if n["k"] == "MethodCall" else n["args"]
-            t = show(N.term(args[idx[target[0]]]))
+            t = show(ats[idx[target[0]]])
             if t == "P%d" % idx[m] and target[0] != m:
                 continue          # hands its own id to another member unchanged
             if ".fields" in t and "@TypeDef::Tuple" not in t or ".variants" in t:
@@ -134,23 +158,22 @@ def auto_structural(ctx, comp):
     if total > 256 or any(len(r) == 0 for r in ranges):
         return None
     norms = {m: Norm(fns[m]) for m in comp}
-    calls = {m: _calls_into(ctx, fns[m], comp) for m in comp}
+    calls = {m: _calls_into(ctx, fns[m], comp, norms[m]) for m in comp}
     if not any(calls.values()):
         return None
     for combo in itertools.product(*ranges):
         meas = dict(zip(comp, combo))
         ok = True
         for m in comp:
-            for n, cal in calls[m]:
+            for n, cal, ats, _direct in calls[m]:
                 target = [x for x in comp if k10._same_fn(cal, x)]
                 if len(target) != 1:
                     ok = False
                     break
-                args = ([n["recv"]] + n["args"]) if n["k"] == "MethodCall" else n["args"]
-                if meas[target[0]] >= len(args):
+                if meas[target[0]] >= len(ats):
                     ok = False
                     break
-                d = descent_depth(norms[m], norms[m].term(args[meas[target[0]]]), meas[m])
+                d = descent_depth(norms[m], ats[meas[target[0]]], meas[m])
                 if d is None or d < 1:
                     ok = False
                     break
@@ -161,19 +184,34 @@ def auto_structural(ctx, comp):
     return None
 
 
-def _calls_into(ctx, fn, comp):
-    """HIR call nodes in fn (incl. closures) whose callee is in the SCC (or a local-trait method linking into it)"""
+def _calls_into(ctx, fn, comp, N=None):
+    """calls in fn (incl. closures) whose callee is in the SCC (or a local-trait method linking into it):
+    [(call node, callee path, argument terms in fn's parameter space, direct?)]. Calls made on fn's behalf by a transparent
+    helper (private, non-recursive, named by no rule) are included, with the helper's parameters substituted (direct = False)."""
+    N = N or Norm(fn)
     names = set(comp)
     out = []
     for n in walk(fn["body"]):
         if n.get("k") in ("Call", "MethodCall") and n.get("callee"):
             cal = n["callee"]
+            args = ([n["recv"]] + n["args"]) if n["k"] == "MethodCall" else n["args"]
+            hit = None
             if any(k10._same_fn(cal, m) for m in names):
-                out.append((n, cal))
+                hit = cal
             elif cal.endswith("ToTokensWithSettings::to_token_stream") and any("to_token_stream" in m for m in names):
-                out.append((n, cal))
+                hit = cal
             elif cal.endswith("ToTokensWithSettings::to_tokens") and any("ToTokensWithSettings>::to_tokens" in m for m in names):
-                out.append((n, cal))
+                hit = cal
+            if hit is not None:
+                out.append((n, hit, [N.term(a) for a in args], True))
+            elif N.transparent_fn(cal) is not None and not any(k10._same_fn(cal, m) for m in names):
+                t = N.term(n)
+                short = {cshort(m): m for m in names}
+                seen = set()
+                for st in subterms(t):
+                    if st[0] == "call" and st[1] in short and show(st) not in seen:
+                        seen.add(show(st))
+                        out.append((n, short[st[1]], list(st[2]), False))
     return out
 
 
@@ -231,15 +269,14 @@ def structural(ctx, rid, key, comp, spec):
             bad.append("no measure parameter recorded for " + cs)
             continue
         N = Norm(fn)
-        for n, cal in _calls_into(ctx, fn, comp):
+        for n, cal, ats, _direct in _calls_into(ctx, fn, comp, N):
             n_calls += 1
             ccs = cshort(cal)
             ci = measure.get(ccs, 0 if ccs.endswith(("to_tokens", "to_token_stream")) else None)
             if ci is None:
                 bad.append("no measure parameter for callee " + ccs)
                 continue
-            args = ([n["recv"]] + n["args"]) if n["k"] == "MethodCall" else n["args"]
-            at = N.term(args[ci])
+            at = ats[ci]
             d = descent_depth(N, at, mi)
             if d is None:
                 bad.append("%s calls %s with `%s`, which is not a projection of its own parameter P%d" % (cs, ccs, show(at)[:100], mi))
@@ -259,15 +296,14 @@ def type_expression(ctx, rid, key, comp, spec):
             continue
         N = Norm(fn)
         cs = cshort(m)
-        for n, cal in _calls_into(ctx, fn, comp):
+        for n, cal, ats, _direct in _calls_into(ctx, fn, comp, N):
             n_calls += 1
-            args = ([n["recv"]] + n["args"]) if n["k"] == "MethodCall" else n["args"]
             if "id" in spec:
                 i = list(spec["id"].values())[0]
-                t = show(N.term(args[i]))
+                t = show(ats[i])
             else:
                 i = list(spec["ty"].values())[0]
-                t = show(N.term(args[i]))
+                t = show(ats[i])
                 # the &Type / &TypeDef argument must be `resolve(<id>)` of an allowed id
                 mm = re.search(r"(?:PortableRegistry::resolve|resolve_type)\((?:[^,]+),(.+?)\)\)?(?:@v1::Some\.0)?\??(?:\.type_def)?$", t)
                 if not mm:
@@ -311,7 +347,11 @@ def _fresh_insert_dominates(N, fn, node, set_t, key_t):
 def guarded(ctx, rid, key, comp, spec):
     fn = ctx.P.body(comp[0])
     N = Norm(fn)
-    calls = _calls_into(ctx, fn, comp)
+    calls = [(n, cal) for n, cal, _ats, direct in _calls_into(ctx, fn, comp, N) if direct]
+    indirect = [n for n, cal, _ats, direct in _calls_into(ctx, fn, comp, N) if not direct]
+    if indirect:
+        ctx.bad(rid, key, fn["sp"], "a recursive call is made through a helper (%s): the dominance of the visited-set guard cannot be established across the call" % indirect[0]["sp"])
+        return
     if spec["check"] == "collect_type_ids":
         i_id = q.param_index(fn, lambda t: t == "u32")
         i_set = q.param_index(fn, lambda t: "HashSet<u32" in t)
